@@ -1129,7 +1129,7 @@ class Evaluator:
         # a body that made no call and met no raising primitive (e.g. a lookup that was decided on constants) cannot raise
         # anything beyond its explicit exits: no opaque `except` flow is needed for it
         body_inert = (len(fr.summary.calls), len(fr.summary.hazards)) == marks0 and not any(
-            isinstance(n, (ast.Call, ast.BinOp, ast.Attribute, ast.Await, ast.Yield)) for b in st.body for n in ast.walk(b)) and len(fr.summary.exits) == n0
+            isinstance(n, (ast.Call, ast.BinOp, ast.Attribute, ast.Await, ast.Yield)) and id(n) not in self.__dict__.get("_inert_calls", ()) for b in st.body for n in ast.walk(b)) and len(fr.summary.exits) == n0
         fr.trystack.pop()
         # implicit errors of the body (a failing lookup, an index past the end) that a handler of THIS statement names are
         # caught here: they are no longer hazards of the function (the handler flow below stands for them)
@@ -1671,9 +1671,42 @@ class Evaluator:
                         if key not in cache:
                             cache[key] = _Obj(r[1].name, r[2], {"name": r[3], "value": val, "_name_": r[3], "_value_": val})
                         return cache[key]
+                    if cnode is not None and any((dotted_parts(b) or ["?"])[-1] == "Enum" for b in cnode.bases) and "__new__" in _meths and "_generate_next_value_" not in _meths \
+                            and not r[3].startswith("_"):
+                        # a member of an Enum with its own __new__ (members carrying extra attributes): __new__(cls, *value) builds the
+                        # member object and may set _value_; __init__(self, *value) runs after it
+                        cache = self.__dict__.setdefault("_enum_members", {})
+                        key = (r[1].name, r[2], r[3])
+                        if key not in cache:
+                            args_ = list(val) if isinstance(val, tuple) else [val]
+                            f0 = Frame(self, mn, None, Summary(None), 0)
+                            mem = self.call_fn(_meths["__new__"], [T("classref", (r[1].name + "." + r[2],))] + args_, {}, st.value, f0)
+                            if not isinstance(mem, _Obj):
+                                return val
+                            if "__init__" in _meths:
+                                self.call_fn(_meths["__init__"], [mem] + args_, {}, st.value, f0)
+                            mem.fields.setdefault("_value_", val)
+                            mem.fields["value"] = mem.fields["_value_"]
+                            mem.fields["name"] = mem.fields["_name_"] = r[3]
+                            cache[key] = mem
+                        return cache[key]
                     return val
             return T("raise", ("AttributeError",))
         return tm.unk("ref")
+
+    _ENUM_BASES = {"Enum", "IntEnum", "IntFlag", "Flag", "StrEnum"}
+
+    def enum_members(self, modname, cls):
+        """[(name, member)] of a package Enum class in definition order (None when the class is not an Enum)."""
+        m = self.prog.modules.get(modname)
+        node = m.classnodes.get(cls) if m is not None else None
+        if node is None or not any((dotted_parts(b) or ["?"])[-1] in self._ENUM_BASES for b in node.bases):
+            return None
+        out = []
+        for st in node.body:
+            if isinstance(st, ast.Assign) and len(st.targets) == 1 and isinstance(st.targets[0], ast.Name) and not st.targets[0].id.startswith("_"):
+                out.append((st.targets[0].id, self.ref(("classattr", m, cls, st.targets[0].id))))
+        return out
 
     def e_Attribute(self, e, fr):
         parts = dotted_parts(e)
@@ -2443,6 +2476,18 @@ class Evaluator:
         bases = {(".".join(dotted_parts(b) or ["?"])).split(".")[-1] for b in node.bases}
         decos = {(".".join(dotted_parts(d.func if isinstance(d, ast.Call) else d) or ["?"])).split(".")[-1] for d in node.decorator_list}
         meths, assigns = self.class_members(modname, cls)
+        if bases & self._ENUM_BASES and len(pos) == 1 and not kw and tm.is_conc(pos[0]) and not isinstance(pos[0], (T, _Obj)):
+            # Enum lookup by value: the member whose value equals the argument, ValueError when there is none
+            mems = self.enum_members(modname, cls)
+            if mems is not None and all(isinstance(mv, _Obj) or (tm.is_conc(mv) and not isinstance(mv, T)) for _n, mv in mems):
+                for _n, mv in mems:
+                    v_ = mv.fields.get("value") if isinstance(mv, _Obj) else mv
+                    if tm.is_conc(v_) and not isinstance(v_, (T, _Obj)) and type(v_) == type(pos[0]) and v_ == pos[0]:
+                        if e is not None:
+                            self.__dict__.setdefault("_inert_calls", set()).add(id(e))  # decided on constants: this call raised nothing
+                        return mv
+                if all(tm.is_conc(mv.fields.get("value") if isinstance(mv, _Obj) else mv) for _n, mv in mems):
+                    return T("raise", ("ValueError",))
         if "NamedTuple" in bases or "dataclass" in decos:
             names, defaults, noinit = [], {}, []
             for mn, st in assigns:
@@ -3303,6 +3348,13 @@ class Evaluator:
                 return "builtins.object" in exts
             if crefs and len(crefs) == len(want0) and not isinstance(a0, _Obj) and (tm.is_conc(a0) or (isinstance(a0, T) and a0.op not in ("param", "ite", "app", "proj", "idx", "attr", "unk", "lookup", "get") and tm.tyof(a0) != tm.ANY)):
                 return False  # a plain value (number, bytes, a term of builtin type) is not an instance of a package class
+        if n == "isinstance" and len(pos) == 2 and type(a0) in (str, bytes, bytearray, int, bool, float, type(None)):
+            # a value the evaluator holds as itself (a literal, a folded constant): its type is what Python says it is
+            want = pos[1] if isinstance(pos[1], (tuple, list)) else (pos[1],)
+            names = [w.args[0] for w in want if isinstance(w, T) and w.op == "ext"]
+            if len(names) == len(want) and all(nm.startswith("builtins.") for nm in names):
+                mro = {"builtins." + c_.__name__ for c_ in type(a0).__mro__}
+                return bool(mro & set(names))
         if n == "isinstance":
             t = tm.tyof(a0)
             if t != tm.ANY and len(pos) == 2 and getattr(self, "typed_params", False):
@@ -3335,6 +3387,8 @@ class Evaluator:
             for k, d in self.objects.items():
                 if tm.veq(k, a0):
                     return dict(d)
+        if n == "object.__new__" and len(pos) == 1 and isinstance(a0, T) and a0.op == "classref" and "." in a0.args[0]:
+            return _Obj(a0.args[0].rsplit(".", 1)[0], a0.args[0].rsplit(".", 1)[1], {})
         if n in ("setattr", "object.__setattr__") and len(pos) == 3 and isinstance(pos[1], str) and isinstance(a0, _Obj):
             a0.fields[pos[1]] = pos[2]  # also how a frozen dataclass sets its own fields in __post_init__
             return None
